@@ -1,5 +1,6 @@
 import Driver.C11
 import WsVerif.Model.Flate
+import WsVerif.Model.FlateFrame
 namespace Ws.Driver
 open Ws Ws.Spec
 
@@ -164,6 +165,46 @@ def c12flr (a : List String) (obs : String) : String × String :=
     (model, verdict)
   | _ => ("BADOP", "skip")
 
+def helperErrStr : HelperErr → String
+  | .fragmented => "fragmented" | .bit => "bit" | .codec => "codec"
+
+/-- the decompressor of the default helper, as the model sees it: flate's reader over the suffixed source -/
+def flDecomp (c : Bytes) : Option Bytes :=
+  let (b, e) := flRead c
+  if e == .final then some b else none
+
+/-- df: model = decompressFrame over flRead; oracle = the property's words (non-final refused; the bit on a
+    control or continuation frame refused; otherwise the payload an independent decoder gives and the header
+    with only the compression bit and the length changed). -/
+def c12df (a : List String) (obs : String) : String × String :=
+  match a with
+  | [fin, rsv, op, pay] =>
+    let wire := hexOrEmpty (getF obs "wire")
+    let plain := hexOrEmpty pay
+    let rsvN := natOr rsv
+    let opN := natOr op
+    let h : Header := { fin := fin == "1", rsv := rsvN, op := opN, masked := false, mask := Mask.zero, len := wire.length }
+    let model :=
+      match decompressFrame flDecomp h wire with
+      | .error e => s!"derr={helperErrStr e} wire={getF obs "wire"}"
+      | .ok (h', p) => s!"derr=nil wire={getF obs "wire"} dhdr={hdrStr h'} dpay={Bytes.toHex p}"
+    let bit := rsvN / 4 % 2 == 1
+    let first := opN == 1 || opN == 2
+    let verdict :=
+      if fin != "1" then (if getF obs "derr" == "nil" then "bad:non-final-frame-not-refused" else "ok")
+      else if bit && !first then (if getF obs "derr" == "nil" then "bad:compression-bit-accepted-on-control-or-continuation" else "ok")
+      else if getF obs "derr" != "nil" then "bad:valid-frame-refused"
+      else if !bit then
+        (if getF obs "dhdr" == hdrStr h && hexOrEmpty (getF obs "dpay") == wire then "ok" else "bad:plain-frame-changed")
+      else
+        let (p, _) := inflate (wire ++ compressionTail)
+        if p != plain then "skip"
+        else if hexOrEmpty (getF obs "dpay") != plain then "bad:decompressed-payload"
+        else if getF obs "dhdr" != hdrStr { h with rsv := rsvN - 4, len := plain.length } then "bad:decompressed-header"
+        else "ok"
+    (model, verdict)
+  | _ => ("BADOP", "skip")
+
 def c12cf (a : List String) (obs : String) : String × String :=
   match a with
   | [fin, rsv, op, masked, pay] =>
@@ -177,8 +218,14 @@ def c12cf (a : List String) (obs : String) : String × String :=
       let cpay := hexOrEmpty (getF obs "cpay")
       let h0 : Header := { fin := true, rsv := rsvN, op := natOr op, masked := masked == "1", mask := if masked == "1" then ⟨1, 2, 3, 4⟩ else Mask.zero, len := payload.length }
       let hc : Header := { h0 with rsv := rsvN + 4, len := cpay.length }
-      let (back, e) := flRead cpay
-      let model := s!"cerr=nil chdr={hdrStr hc} cpay={getF obs "cpay"} derr={if e == .final then "nil" else endStr e} dhdr={hdrStr h0} dpay={Bytes.toHex back}"
+      -- model: compressFrame with the observed compressor output, then decompressFrame over flRead
+      let model :=
+        match compressFrame (fun _ => some cpay) h0 payload with
+        | .error e => s!"cerr={helperErrStr e}"
+        | .ok (hm, cm) =>
+          match decompressFrame flDecomp hm cm with
+          | .error e => s!"cerr=nil chdr={hdrStr hm} cpay={Bytes.toHex cm} derr={helperErrStr e}"
+          | .ok (hd, pd) => s!"cerr=nil chdr={hdrStr hm} cpay={Bytes.toHex cm} derr=nil dhdr={hdrStr hd} dpay={Bytes.toHex pd}"
       let (plain, _) := inflate (cpay ++ compressionTail)
       let verdict :=
         if getF obs "cerr" != "nil" then "bad:final-frame-not-compressed"
